@@ -46,6 +46,15 @@ func (m *fmodel) compilePanics() bool {
 	return !inc[m.relType] || !typeTable[m.relType].isRel
 }
 
+// compileMessage is the message of the panic predicted by compilePanics.
+func (m *fmodel) compileMessage() string {
+	inc := m.include()
+	if !inc[m.relType] {
+		return fmt.Sprintf("relation component %v not in filter", typeTable[m.relType].rt)
+	}
+	return fmt.Sprintf("component type %v is not a relation", typeTable[m.relType].rt)
+}
+
 // coreFilter builds the equivalent core filter from the current configuration.
 func (m *fmodel) coreFilter(p *pair, qt []ecs.Entity) ecs.Filter {
 	inc := m.include()
@@ -166,19 +175,29 @@ func filterSection(h *H, rng *rand.Rand, n, variant int) {
 
 	// builder applies one random builder call to the generic filter and the model.
 	builder := func() {
-		ops := []string{"With", "With", "Without", "Without", "Optional", "Exclusive", "WithRelation", "WithRelation"}
+		ops := []string{"With", "With", "Without", "Without", "Optional", "Optional", "Exclusive", "WithRelation", "WithRelation"}
 		op := ops[rng.Intn(len(ops))]
 		if op == "Optional" && fa.Optional == nil {
 			op = "With"
 		}
-		if (op == "Exclusive" || op == "Without") && rng.Intn(2) == 0 {
+		if (op == "Exclusive" || op == "Without") && rng.Intn(4) == 0 {
 			op = "With"
+		}
+		forceRel := false
+		if !m.registered && (m.compilePanics() || !m.hasRelType) && rng.Intn(10) < 3 {
+			// steer towards a valid relation configuration
+			forceRel = true
+			if m.include()[tRel] {
+				op = "WithRelation"
+			} else {
+				op = "With"
+			}
 		}
 		mname := name(op)
 		switch op {
 		case "With":
 			ts := pickSome(rng, others, 2)
-			if !m.include()[tRel] && rng.Intn(10) < 4 {
+			if !m.include()[tRel] && (forceRel || rng.Intn(10) < 3) {
 				ts = []int{tRel}
 			}
 			if rng.Intn(10) == 0 && len(params) > 0 {
@@ -187,7 +206,7 @@ func filterSection(h *H, rng *rand.Rand, n, variant int) {
 			ra := try(func() { fa.With(compsOf(ts)...) })
 			rb := try(func() {
 				if m.registered {
-					panic(modelPanic("registered"))
+					panic(modelPanic("can't modify a registered filter"))
 				}
 				m.with = append(m.with, ts...)
 			})
@@ -207,10 +226,10 @@ func filterSection(h *H, rng *rand.Rand, n, variant int) {
 			ra := try(func() { fa.Without(compsOf(ts)...) })
 			rb := try(func() {
 				if m.registered {
-					panic(modelPanic("registered"))
+					panic(modelPanic("can't modify a registered filter"))
 				}
 				if m.exclusive {
-					panic(modelPanic("exclusive"))
+					panic(modelPanic("filter is already exclusive"))
 				}
 				m.without = append(m.without, ts...)
 			})
@@ -228,7 +247,7 @@ func filterSection(h *H, rng *rand.Rand, n, variant int) {
 			ra := try(func() { fa.Optional(compsOf(ts)...) })
 			rb := try(func() {
 				if m.registered {
-					panic(modelPanic("registered"))
+					panic(modelPanic("can't modify a registered filter"))
 				}
 				m.optional = append(m.optional, ts...)
 			})
@@ -237,21 +256,25 @@ func filterSection(h *H, rng *rand.Rand, n, variant int) {
 			ra := try(func() { fa.Exclusive() })
 			rb := try(func() {
 				if m.registered {
-					panic(modelPanic("registered"))
+					panic(modelPanic("can't modify a registered filter"))
 				}
 				if len(m.without) > 0 {
-					panic(modelPanic("excludes"))
+					panic(modelPanic("filter already excludes some components"))
 				}
 				m.exclusive = true
 			})
 			h.samePanic(mname, ra, rb)
 		case "WithRelation":
 			rt := tRel
-			switch r := rng.Intn(20); {
-			case r < 13:
+			r := rng.Intn(20)
+			if forceRel {
+				r = 0
+			}
+			switch {
 			case r < 16:
-				rt = tRel2
 			case r < 18:
+				rt = tRel2
+			case r < 19:
 				rt = tX0
 			default:
 				if len(params) > 0 {
@@ -267,7 +290,7 @@ func filterSection(h *H, rng *rand.Rand, n, variant int) {
 			ra := try(func() { fa.WithRelation(tSingle[rt](), tg...) })
 			rb := try(func() {
 				if m.registered {
-					panic(modelPanic("registered"))
+					panic(modelPanic("can't modify a registered filter"))
 				}
 				m.hasRelType, m.relType = true, rt
 				if len(tg) > 0 {
@@ -290,6 +313,48 @@ func filterSection(h *H, rng *rand.Rand, n, variant int) {
 				qt = []ecs.Entity{p.pickUsedTarget()} // documented-illegal: expect a panic
 			}
 		}
+		// witnesses: make sure some entities match the current configuration
+		if !m.compilePanics() && rng.Intn(10) < 7 {
+			inc := m.include()
+			for i := 1 + rng.Intn(2); i > 0; i-- {
+				var comp []int
+				rels := 0
+				for t := 0; t < nTypes; t++ {
+					take := inc[t]
+					if !take && !m.exclusive && !contains(m.without, t) {
+						if contains(m.params, t) {
+							take = rng.Intn(2) == 0 // optional parameter: present or absent
+						} else if !typeTable[t].isRel {
+							take = rng.Intn(6) == 0
+						}
+					}
+					if take {
+						comp = append(comp, t)
+						if typeTable[t].isRel {
+							rels++
+						}
+					}
+				}
+				if rels > 1 {
+					break
+				}
+				tg := ecs.Entity{}
+				want := ecs.Entity{}
+				if m.hasRelType && m.hasFixed {
+					want = m.fixed
+				} else if len(qt) > 0 {
+					want = qt[0]
+				} else if x, ok := p.pickAlive(); ok {
+					want = x
+				}
+				for j := range p.recs {
+					if p.recs[j].e == want {
+						tg = want // alive
+					}
+				}
+				p.createT(comp, tg)
+			}
+		}
 		useFilter := rng.Intn(5) == 0
 		mname := name("Query")
 		if useFilter {
@@ -308,10 +373,13 @@ func filterSection(h *H, rng *rand.Rand, n, variant int) {
 		})
 		rb := try(func() {
 			if m.compilePanics() {
-				panic(modelPanic("relation component not required by filter or not a relation"))
+				panic(modelPanic(m.compileMessage()))
 			}
-			if len(qt) > 0 && (m.registered || m.hasFixed) {
-				panic(modelPanic("target not allowed"))
+			if len(qt) > 0 && m.registered {
+				panic(modelPanic("can't change relation target on a cached query"))
+			}
+			if len(qt) > 0 && m.hasFixed {
+				panic(modelPanic("can't change relation target on a query with fixed target"))
 			}
 			if m.registered {
 				qb = wb.Query(&m.cfB)
@@ -342,7 +410,23 @@ func filterSection(h *H, rng *rand.Rand, n, variant int) {
 			rid = p.ids[m.relType]
 		}
 		before := h.fails
-		p.cmpQueries(mname, qa, &qb, fa.ids, params, m.hasRelType, rid, mode)
+		vis := p.cmpQueries(mname, qa, &qb, fa.ids, params, m.hasRelType, rid, mode)
+		if h.stats != nil {
+			key := name("visited/queries")
+			if m.hasRelType {
+				key = name("visited/queries (relation)")
+			}
+			st := h.stats[key]
+			st[0] += len(vis)
+			st[1]++
+			h.stats[key] = st
+			if len(m.optional) > 0 {
+				st := h.stats[name("visited/queries (optional)")]
+				st[0] += len(vis)
+				st[1]++
+				h.stats[name("visited/queries (optional)")] = st
+			}
+		}
 		if h.fails != before {
 			fmt.Fprintf(h.out, "  (configuration at that query: {%s})\n", m.String())
 		}
@@ -354,7 +438,7 @@ func filterSection(h *H, rng *rand.Rand, n, variant int) {
 			ra := try(func() { fa.Unregister(wa) })
 			rb := try(func() {
 				if !m.registered {
-					panic(modelPanic("not registered"))
+					panic(modelPanic("can't unregister a filter that is not cached"))
 				}
 				wb.Cache().Unregister(&m.cfB)
 				m.registered = false
@@ -368,7 +452,7 @@ func filterSection(h *H, rng *rand.Rand, n, variant int) {
 		ra := try(func() { fa.Register(wa) })
 		rb := try(func() {
 			if m.compilePanics() {
-				panic(modelPanic("relation component not required by filter or not a relation"))
+				panic(modelPanic(m.compileMessage()))
 			}
 			if m.registered {
 				wb.Cache().Register(&m.cfB) // panics: already registered
@@ -386,7 +470,7 @@ func filterSection(h *H, rng *rand.Rand, n, variant int) {
 			return
 		}
 	}
-	steps := 10 + rng.Intn(6)
+	steps := 14 + rng.Intn(8)
 	for i := 0; i < steps; i++ {
 		if rng.Intn(3) == 0 {
 			p.background(1 + rng.Intn(2))
@@ -399,7 +483,7 @@ func filterSection(h *H, rng *rand.Rand, n, variant int) {
 			query()
 		case r < 80:
 			builder()
-			if rng.Intn(2) == 0 && !p.stop() {
+			if rng.Intn(5) > 0 && !p.stop() {
 				query() // a query immediately after a builder call: must reflect the new configuration
 			}
 		case r < 90:
